@@ -8,28 +8,59 @@ source edit that changes a generated definition and breaks its `*_eq_model` theo
 obligation of every property that relies on that function (DESIGN.md §2.4 then applies: failing-input
 search, `VIOLATION ... [no-failing-input-found]`).
 """
-import os, re, subprocess
-from . import common, translate
+import importlib, os, re, subprocess, sys
+from . import common, translate, gen_search
 
 
 def _relevant(prop):
     return [e for e in translate.REGISTRY if prop in e["props"]]
 
 
+def _install_replay(prop, findings):
+    """make the property's harness module replay the distinguishing inputs on the real code: after its own `check`
+    (the staged /repo is importable by then), and for replay files written from such an input"""
+    try:
+        mod = sys.modules.get("harness." + prop.lower()) or importlib.import_module("harness." + prop.lower())
+    except ImportError:
+        return
+    if getattr(mod, "_gen_tie_wrapped", False):
+        mod._gen_tie_findings.clear()
+        mod._gen_tie_findings.update(findings)
+        return
+    orig_check, orig_replay = mod.check, mod.replay
+    mod._gen_tie_findings = dict(findings)
+
+    def check(ctx):
+        orig_check(ctx)
+        gen_search.replay_findings(ctx, prop, mod._gen_tie_findings)
+
+    def replay(ctx, payload):
+        case = payload.get("case")
+        if not isinstance(case, dict):
+            case = (payload.get("first_difference") or {}).get("case")
+        if isinstance(case, dict) and "gen_tie" in case:
+            return gen_search.replay_case(ctx, prop, case)
+        return orig_replay(ctx, payload)
+
+    mod.check, mod.replay, mod._gen_tie_wrapped = check, replay, True
+
+
 def translate_and_build(prop):
     entries = _relevant(prop)
     if not entries:
         return dict(ok=True, problems=[], functions=[], theorems=[], obligations=0, discharged=0)
+    findings = {}
     groups = sorted({e["group"] for e in entries})
     problems, functions, theorems = [], [], []
     lock = common._lake_lock()          # translation + build + audit see one consistent Source.lean
     try:
         manifest = translate.write()
         recs = [r for r in manifest.values() if prop in r["props"]]
-        src = common.strip_comments(open(os.path.join(translate.GEN_DIR, "Source.lean")).read())
-        for ln, line in enumerate(src.splitlines(), 1):
-            if common.FORBIDDEN.search(line):
-                problems.append("forbidden construct in generated Qv/Gen/Source.lean:%d: %s" % (ln, line.strip()))
+        for gen_file in translate.generated_files():
+            src = common.strip_comments(open(os.path.join(translate.GEN_DIR, gen_file)).read())
+            for ln, line in enumerate(src.splitlines(), 1):
+                if common.FORBIDDEN.search(line):
+                    problems.append("forbidden construct in generated Qv/Gen/%s:%d: %s" % (gen_file, ln, line.strip()))
         for r in recs:
             if r["status"] != "translated":
                 problems.append("generated-source tie: %s `%s` is %s" % (r["file"], r["function"], r["status"]))
@@ -45,6 +76,16 @@ def translate_and_build(prop):
                         and "Lean exited" not in l]
                 problems.append("generated-source tie: %s no longer checks against the definitions generated "
                                 "from the current source: %s" % (target, " | ".join(errs[:4])[:900] or log[-600:]))
+                # the generated definitions still elaborate (only the proof broke): evaluate both sides on a
+                # structured stream of inputs and report the first input on which they differ
+                gnames = [e.get("lean", e["func"].split(".")[-1]) for e in entries if e["group"] == g
+                          and by_name[(e["file"], e["func"], "Qv.Gen." + e.get("lean", e["func"].split(".")[-1]))]["status"]
+                          == "translated"]
+                found = gen_search.search_group(g, gnames)
+                findings.update(found)
+                differing = [n for n in gnames if found.get(n, {}).get("input") is not None]
+                for n in differing + [n for n in gnames if n not in differing]:
+                    problems.append("generated-source tie: " + gen_search.describe(n, found.get(n, dict(unavailable="not run"))))
             names = []
             for e in entries:
                 if e["group"] == g:
@@ -82,7 +123,9 @@ def translate_and_build(prop):
                     theorems.append(dict(name=n, axioms=axs, generated_from=r["file"] + "::" + r["function"]))
                 functions.append(dict(function=r["file"] + "::" + r["function"], lines=r["lines"],
                                       source_hash=r["source_hash"], lean_name=r["lean_name"], theorem=r["theorem"],
-                                      status=r["status"], checked=f_ok))
+                                      status=r["status"], checked=f_ok, generated_file="Qv/Gen/" + r["unit"],
+                                      not_translated=r["not_translated"],
+                                      search=findings.get(r["lean_name"][len("Qv.Gen."):])))
         if os.path.realpath(translate.repo()) != os.path.realpath("/repo"):
             # a redirected run (seeded change): leave the tree with the file generated from /repo
             saved = os.environ.pop("VERIF_REPO", None)
@@ -93,8 +136,12 @@ def translate_and_build(prop):
                     os.environ["VERIF_REPO"] = saved
     finally:
         lock.close()
+    _install_replay(prop, {n: r for n, r in findings.items() if r.get("input") is not None})
+    # the search lines first: run.py prints the first three problems
+    problems.sort(key=lambda p: 0 if "distinguishing-input search: generated and model definitions" in p and " differ on " in p
+                  else 1)
     return dict(ok=not problems, problems=problems, functions=functions, theorems=theorems,
-                obligations=len(theorems), discharged=discharged)
+                obligations=len(theorems), discharged=discharged, distinguishing=findings)
 
 
 if __name__ == "__main__":
